@@ -252,6 +252,7 @@ def classify(text):
     import re
 
     t = re.sub(r"\[.*?\]$", "", text).strip()
+    t = re.sub(r"\(first octets .*?\)", "", t)
     t = re.sub(r"[0-9a-f]{8,}", "#", t)
     t = re.sub(r"-?\d+", "N", t)
     return t[:110]
